@@ -30,6 +30,7 @@ def run(chk):
     chk.queue([advprogs.adversarial_program(rng) for _ in range(2500 * k)], 'adversarial')
     chk.queue([advprogs.adversarial_program(rng, lsb0=True) for _ in range(1200 * k)], 'adversarial-lsb0')
     chk.queue([advprogs.adversarial_array_program(rng) for _ in range(1500 * k)], 'adversarial-array')
+    chk.queue([advprogs.adversarial_array_program(rng, lsb0=True) for _ in range(700 * k)], 'adversarial-array-lsb0')
     chk.queue([drivers.c03_program(rng) for _ in range(300 * k)], 'random-mutations')
     chk.queue([drivers.c06_program(rng, lsb0=True) for _ in range(300 * k)], 'random-streams-lsb0')
     # 'never corrupts an object': whatever a call returns is then changed in place while TLC keeps judging every live object
